@@ -188,8 +188,21 @@ def rule_pool(ck: Check, repo: Repo, rid: str = "R2") -> None:
     stored_from_parse = any("ReuseDep5.from_file" in ast.unparse(n.value) or ast.unparse(n.value) in ("self.reuse_dep5", "reuse_dep5", "dep5") for n in stores)
     gen = [n for n in ast.walk(c) if isinstance(n, ast.Call) and ast.unparse(n.func).endswith("FileReport.generate")]
     before = bool(parses and stores and gen) and max(n.lineno for n in stores) < min(n.lineno for n in gen)
-    negated_guard = any(isinstance(n, ast.If) and any(p in list(ast.walk(n)) for p in parses)
-                        and re.search(r"\bnot (self\.has_dep5|self\.project\.global_licensing is None)", ast.unparse(n.test)) for n in ast.walk(c))
+    # the guard of the parse must be TRUE in the state it exists for: a dep5 project (has_dep5) whose worker has not parsed yet
+    from ..rules import bool_formula as _bf
+    from ..tab import Valuation as _Val, evalf as _ev
+    negated_guard = False
+    for n in ast.walk(c):
+        if isinstance(n, ast.If) and any(p in list(ast.walk(n)) for p in parses):
+            in_body = any(p in list(ast.walk(st)) for st in n.body for p in parses)
+            try:
+                f = _bf(n.test, lambda t, _n: {"self.has_dep5": "has", "self.reuse_dep5": "parsed", "self.reuse_dep5 is None": ("not", "parsed"),
+                                               "self.reuse_dep5 is not None": "parsed"}.get(t))
+                val = _ev(f, _Val({"has": True, "parsed": False}))
+            except Exception:  # noqa: BLE001 - a guard over other atoms is not judged here
+                continue
+            if val != in_body:
+                negated_guard = True
     ok = bool(parses) and stored_from_parse and before and not negated_guard
     r.instance("worker-dep5", {"ok": ok, "parses": len(parses), "stores": len(stores)})
     if not ok:
